@@ -55,6 +55,7 @@ BEGIN {
 	if (act == "divbegin") x = 1 / zero
 	if (act == "exitbegin") exit 4
 	if (act == "srandonly") srand(5)
+	if (act == "setrecbegin") { $0 = "#tag,y z"; obs("setrec.NF", NF); obs("setrec.$1", $1) }
 	if (act == "splitargv") { split("zz yy", ARGV); split("k v", ENVIRON) }
 	if (usegetline) {
 		if ((getline line < "in1") > 0) obs("getline.in1", line)
@@ -103,6 +104,7 @@ userec && /s1/, /zz/ { obs("inrange", NR ":" $0) }
 	if (act == "deeprule" && NR == 2) deep(depth, garr)
 	if (act == "getlinerule" && NR == 1) getline
 	if (act == "matchrule") match($0, /[0-9]+/)
+	if (act == "setrec" && NR == 1) { $0 = "#tag,y z"; obs("setrec.NF", NF); obs("setrec.$1", $1) }
 	print "r:" $0
 }
 END {
@@ -115,7 +117,7 @@ END {
 `
 
 var c14Acts = []string{"", "", "", "srandonly", "splitargv", "setmodes", "divbegin", "exitbegin", "closecmd", "srand", "forin", "getlinebegin",
-	"failfn", "divfn", "exitfn", "cancelfn", "nextfn", "exitrule", "divrule", "cancelrule", "failrule", "deeprule", "getlinerule", "matchrule", "divend", "exitend"}
+	"failfn", "divfn", "exitfn", "cancelfn", "nextfn", "exitrule", "divrule", "cancelrule", "failrule", "deeprule", "getlinerule", "matchrule", "divend", "exitend", "setrec", "setrecbegin"}
 
 type c14Run struct {
 	Act        string `json:"act,omitempty"`
@@ -140,6 +142,7 @@ type c14Run struct {
 	InputMode  string `json:"input_mode,omitempty"` // "", csv, tsv
 	Header     bool   `json:"header,omitempty"`
 	CSVSep     string `json:"csv_sep,omitempty"`
+	CSVComment string `json:"csv_comment,omitempty"`
 	OutputMode string `json:"output_mode,omitempty"`
 
 	NoExec       bool `json:"noexec,omitempty"`
@@ -173,10 +176,12 @@ type c14Run struct {
 
 type c14Scn struct {
 	// SameSink: the reused Interpreter writes to the very same writer object in every run
-	SameSink  bool     `json:"same_sink,omitempty"`
-	ResetVars bool     `json:"reset_vars"`
-	ResetRand bool     `json:"reset_rand"`
-	Runs      []c14Run `json:"runs"`
+	SameSink bool `json:"same_sink,omitempty"`
+	// SameConfig: every run of the reused Interpreter gets the very same *Config value, rewritten in between
+	SameConfig bool     `json:"same_config,omitempty"`
+	ResetVars  bool     `json:"reset_vars"`
+	ResetRand  bool     `json:"reset_rand"`
+	Runs       []c14Run `json:"runs"`
 }
 
 // c14Result is everything observable about one execution.
@@ -231,7 +236,7 @@ func b2s(b bool) string {
 }
 
 // c14Exec performs one run on the given interpreter in a fresh simulated world.
-func c14Exec(it *interp.Interpreter, run *c14Run, log *core.Log, shared *core.SimSink) *c14Result {
+func c14Exec(it *interp.Interpreter, run *c14Run, log *core.Log, shared *core.SimSink, slot *interp.Config) *c14Result {
 	res := &c14Result{Fired: map[string]int{}}
 	st := &c14State{}
 	c14cur = st
@@ -318,6 +323,9 @@ func c14Exec(it *interp.Interpreter, run *c14Run, log *core.Log, shared *core.Si
 		if run.CSVSep != "" {
 			cfg.CSVInput.Separator, _ = utf8.DecodeRuneInString(run.CSVSep)
 		}
+		if run.CSVComment != "" {
+			cfg.CSVInput.Comment, _ = utf8.DecodeRuneInString(run.CSVComment)
+		}
 		if run.BadSep {
 			cfg.CSVInput.Separator = '"'
 		}
@@ -363,12 +371,21 @@ func c14Exec(it *interp.Interpreter, run *c14Run, log *core.Log, shared *core.Si
 		}
 	}
 	defer func() { interp.VerifStep = nil }()
+	if slot != nil {
+		// the caller keeps one Config value around and rewrites its fields before every call
+		*slot = *cfg
+		cfg = slot
+	}
 	r := guarded(func() (int, error) {
 		if ctx != nil {
 			return it.ExecuteContext(ctx, cfg)
 		}
 		return it.Execute(cfg)
 	})
+	cancelledDuring := ctx != nil && ctx.Cancelled()
+	if ctx != nil && !cancelledDuring {
+		ctx.Cancel(context.Canceled) // the caller's usual "defer cancel()": the context ends with the call
+	}
 	res.Status, res.Err, res.Panic = r.Status, r.errString(), r.Panic
 	res.Obs = st.obs
 	res.Stdout = stdout.String()[base:]
@@ -389,7 +406,7 @@ func c14Exec(it *interp.Interpreter, run *c14Run, log *core.Log, shared *core.Si
 	if stats.Errors > 0 {
 		res.Fired["fault:stdin_read_error"] += stats.Errors
 	}
-	if ctx != nil && ctx.Cancelled() {
+	if cancelledDuring {
 		res.Fired["runs_with_cancelled_context"]++
 	}
 	if r.Err != nil {
@@ -487,6 +504,9 @@ func c14GenRun(r *core.Rand, resetVars, resetRand bool, children bool) c14Run {
 			run.CSVSep = core.Pick(r, []string{"|", ";"})
 		}
 		run.BadSep = r.Chance(1, 12)
+		if r.Chance(1, 3) {
+			run.CSVComment = core.Pick(r, []string{"#", "#", "x"})
+		}
 	}
 	run.UseName = r.Chance(1, 4)
 	if run.InputMode != "" && run.Header {
@@ -544,6 +564,7 @@ func (c14Engine) Gen(r *core.Rand, tier string, i int) any {
 	sc.ResetVars = r.Chance(1, 2)
 	sc.ResetRand = sc.ResetVars || r.Chance(1, 3)
 	sc.SameSink = r.Chance(1, 3)
+	sc.SameConfig = r.Chance(1, 4)
 	children := r.Chance(1, 12)
 	n := r.Range(2, 5)
 	if r.Chance(1, 10) {
@@ -599,6 +620,10 @@ func (c14Engine) Run(scAny any, keep bool) core.Outcome {
 	if sc.SameSink {
 		shared = core.NewSimSink("stdout", log)
 	}
+	var slot *interp.Config
+	if sc.SameConfig {
+		slot = &interp.Config{}
+	}
 	for i := range sc.Runs {
 		run := &sc.Runs[i]
 		if i > 0 {
@@ -609,9 +634,9 @@ func (c14Engine) Run(scAny any, keep bool) core.Outcome {
 				reused.ResetRand()
 			}
 		}
-		a := c14Exec(reused, run, log, shared)
+		a := c14Exec(reused, run, log, shared, slot)
 		fresh, _ := interp.New(prog)
-		b := c14Exec(fresh, run, nil, nil)
+		b := c14Exec(fresh, run, nil, nil, nil)
 		for k, v := range a.Fired {
 			fired[k] += v
 		}
@@ -700,7 +725,8 @@ func (c14Engine) Shrink(scAny any) []any {
 			{run.OutFail, func(r *c14Run) { r.OutFail = false }}, {run.BadVars, func(r *c14Run) { r.BadVars = false }}, {run.BadMode, func(r *c14Run) { r.BadMode = false }},
 			{run.NilOpen, func(r *c14Run) { r.NilOpen = false }}, {run.NilShell, func(r *c14Run) { r.NilShell = false }},
 			{run.BadSep, func(r *c14Run) { r.BadSep = false }}, {run.Header, func(r *c14Run) { r.Header = false }},
-			{run.Ctx != "", func(r *c14Run) { r.Ctx = "" }}, {run.InputMode != "", func(r *c14Run) { r.InputMode, r.Header, r.CSVSep, r.BadSep = "", false, "", false }},
+			{run.Ctx != "", func(r *c14Run) { r.Ctx = "" }}, {run.InputMode != "", func(r *c14Run) { r.InputMode, r.Header, r.CSVSep, r.BadSep, r.CSVComment = "", false, "", false, "" }},
+			{run.CSVComment != "", func(r *c14Run) { r.CSVComment = "" }},
 			{run.OutputMode != "", func(r *c14Run) { r.OutputMode = "" }}, {run.CSVSep != "", func(r *c14Run) { r.CSVSep = "" }},
 			{len(run.Args) > 0, func(r *c14Run) { r.Args = nil }}, {len(run.Environ) > 0, func(r *c14Run) { r.Environ = nil }},
 			{len(run.ExtraVars) > 0, func(r *c14Run) { r.ExtraVars = nil }}, {run.Depth > 0, func(r *c14Run) { r.Depth = 0 }},
@@ -726,6 +752,11 @@ func (c14Engine) Shrink(scAny any) []any {
 	if sc.SameSink {
 		c := clone()
 		c.SameSink = false
+		out = append(out, c)
+	}
+	if sc.SameConfig {
+		c := clone()
+		c.SameConfig = false
 		out = append(out, c)
 	}
 	if sc.ResetRand && !sc.ResetVars {
